@@ -114,6 +114,14 @@ Theorem C05_history_leaves_precompiled_values :
 Proof. exact history_leaves_precompiled_values. Qed.
 Print Assumptions C05_history_leaves_precompiled_values.
 
+(* `convert` is one function: Load's conversion (convertAST) and the precompiler's (cmd/gorules precompileCommand) set up the
+   parser flags, the types.Info maps, the package name and the irconv.Context fields alike (regenerated from both), and the
+   exported Engine.Load / Engine.LoadFromIR forward their arguments alike. Each run also compares the two conversions'
+   results (reflect.DeepEqual) and takes the printed text from the real `gorules precompile` binary. *)
+Theorem C05_convert_sites_agree : gen_convert_site_load = gen_convert_site_precompile /\ gen_wrapper_diff = [].
+Proof. exact (conj gen_convert_sites_agree gen_wrappers_agree). Qed.
+Print Assumptions C05_convert_sites_agree.
+
 (* non-vacuity *)
 Definition ex_fe : val :=
   VStruct "FilterExpr" [VInt 7; VOp 2; VStr [97]; VNil;
